@@ -54,6 +54,7 @@ let aclass_name = function
   | AServerAcceptsOutside -> "server-accepts-outside" | AServerRejectsWithin -> "server-rejects-within"
   | AViewerSet -> "viewer-set" | AViewerCounter -> "viewer-counter" | AViewerUploader -> "viewer-uploader"
   | AViewerReportFalse -> "viewer-report-false-claim" | AViewerReportStackOmitted -> "viewer-report-stack-omitted"
+  | AViewerChart -> "viewer-chart" | AViewerChartStack -> "viewer-chart-stack"
 
 let summary_name = function
   | SProgram -> "program" | SOsArch -> "osarch" | SGoVersion -> "goversion" | SVersion -> "version"
@@ -123,6 +124,27 @@ let handle kind c =
                    nv (esc r.r_week) (tok_of_n r.r_x) (List.length r.r_programs) status))
             (server_check u true week_ok semver_ok r iv)
         | None -> diff "again" ~model:"an uploader report" ~impl:"none")
+     | _ -> ());
+    (* the uploader's report POSTed by several clients at once to a freshly started server *)
+    (match next c with
+     | "burst" ->
+       let statuses = next_list c next_int in
+       (match !last_uploader_report with
+        | Some r ->
+          let mv = server_validate cfg true r in
+          let mstatus = int_of_n (server_status mv) in
+          List.iteri (fun i st ->
+              if st <> mstatus then begin
+                diff "burst-status" ~model:(string_of_int mstatus) ~impl:(string_of_int st);
+                let week_ok = (match parse_date r.r_week with Some _ -> true | None -> false) in
+                let iv = if st = 200 then VOk else VUnknownBuild in
+                List.iter (fun cl ->
+                    prop (aclass_name cl)
+                      (Printf.sprintf "uploader report posted by %d clients at once to a fresh server: client %d is answered %d (week=%s programs=%d)"
+                         (List.length statuses) (i + 1) st (esc r.r_week) (List.length r.r_programs)))
+                  (server_check u true week_ok true r iv)
+              end) statuses
+        | None -> diff "burst" ~model:"an uploader report" ~impl:"none")
      | _ -> ());
     (* the real uploader's report at X = 0 on the whole week *)
     let up0 = (match next c with
@@ -226,7 +248,24 @@ let handle kind c =
                         q nreq (esc version) (if up then "reachable" else "unreachable") (esc f.f_ident.id_program) cls (show_names names)))
                  (List.sort_uniq Stdlib.compare (viewer_summary_check u f s)))
           end)
-        files
+        files;
+      (* the Charts section *)
+      let charts = next_list c (fun c -> let p = next_bytes c in let n = next_bytes c in let a = next_bool c in (p, n, a)) in
+      if status = 200 then begin
+        let key (p, n) = string_of_bytes p ^ "\000" ^ string_of_bytes n in
+        let mcharts = List.sort_uniq Stdlib.compare
+            (List.map (fun ((p, n), a) -> (key (p, n), a)) (viewer_charts cfg files)) in
+        let icharts = List.sort_uniq Stdlib.compare (List.map (fun (p, n, a) -> (key (p, n), a)) charts) in
+        check_eq (tag "charts") (fun l -> String.concat "," (List.map (fun (k, a) -> String.escaped k ^ "=" ^ string_of_bool a) l))
+          mcharts icharts;
+        List.iter (fun (p, n, a) ->
+            List.iter (fun cl ->
+                prop (aclass_name cl)
+                  (Printf.sprintf "request %d of %d: /?config=%s: chart <%s> of program <%s> shown as %s"
+                     q nreq (esc version) (esc n) (esc p) (if a then "present in the config" else "not present in the telemetry config")))
+              (viewer_chart_check u files p n a))
+          charts
+      end
     done
   | "hang" ->
     let i = next_int c in
